@@ -318,6 +318,53 @@ def run_one(ctx, exe, run, seed, tier, tag, replay_ops=None):
     return d
 
 
+def judge_sigs(ctx, exe, run, ops, tag):
+    """Run the harness on the given op lines and return the set of judge signatures."""
+    d = os.path.join(ctx.scratch, 'shrink-%s' % tag)
+    shutil.rmtree(d, ignore_errors=True)
+    os.makedirs(os.path.join(d, 'work'))
+    rp = os.path.join(d, 'ops.txt')
+    with open(rp, 'w') as f:
+        f.write('\n'.join(ops) + '\n')
+    cmd = [exe, run['cmd'], '-seed', '1', '-tier', 'quick', '-out', d, '-replay', rp] + run.get('args', [])
+    try:
+        rc, _ = sh(cmd, cwd=os.path.join(d, 'work'), env=ctx.env, timeout=120)
+    except subprocess.TimeoutExpired:
+        return set()
+    if rc != 0:
+        return set()
+    drv = os.path.join(ctx.lean, '.lake', 'build', 'bin', 'mkdbdrv')
+    with open(os.path.join(d, 'trace.txt')) as fin:
+        p = subprocess.run([drv, 'judge', run['proto']], stdin=fin, stdout=subprocess.PIPE, stderr=subprocess.PIPE, text=True)
+    return set(re.findall(r'sig=(\S+)', p.stdout))
+
+
+def shrink(ctx, exe, run, ops, sig, budget_s=90):
+    """Delta debugging on the operation lines of a failing case: drop chunks while the judge
+    still reports the same signature.  The case header and set-up lines (first two) stay."""
+    t0 = time.time()
+    head, body = ops[:2], ops[2:]
+    if sig not in judge_sigs(ctx, exe, run, head + body, 's0'):
+        return ops
+    n = 2
+    while len(body) >= 2 and time.time() - t0 < budget_s:
+        chunk = max(1, len(body) // n)
+        removed = False
+        i = 0
+        while i < len(body) and time.time() - t0 < budget_s:
+            cand = body[:i] + body[i + chunk:]
+            if cand != body and sig in judge_sigs(ctx, exe, run, head + cand, 's1'):
+                body = cand
+                removed = True
+            else:
+                i += chunk
+        if not removed:
+            if chunk == 1:
+                break
+            n = min(len(body), n * 2)
+    return head + body
+
+
 # ---------------------------------------------------------------------------------------
 # 4. known findings, replays, evidence
 
@@ -470,6 +517,12 @@ def run_check(ctx, spec, replay):
     rc = 0
     if unlisted:
         v = unlisted[0]
+        if exe and not replay and len(ops_of(v['lines'])) > 6 and spec.get('shrink', True):
+            small = shrink(ctx, exe, v['run'], ops_of(v['lines']), v['sig'])
+            log('-- failing case shrunk from %d to %d operation lines' % (len(ops_of(v['lines'])), len(small)))
+            v = dict(v)
+            v['original_ops'] = len(ops_of(v['lines']))
+            v['lines'] = small
         path = write_replay(ctx, 'failing-input', dict(
             harness_cmd=v['run']['cmd'], proto=v['run']['proto'], case=v['case'], verdict=v['text'],
             all_verdicts=[x['text'] for x in unlisted[:10]], ops=ops_of(v['lines']), trace=v['lines'][:400],
